@@ -47,7 +47,8 @@ def path(eng, acc, task):
     fails = []
     try:
         Q, Rm, qi = bond_ops.qr(A, q0, q1)
-    except (AssertionError, ValueError, IndexError, TypeError, ZeroDivisionError) as e:
+    except Exception as e:
+        reraise_internal(e)
         candidate(eng, acc, task, 'qr', f'qr:raises:{type(e).__name__}', repr(e), inputs)
         return
     k = len(qi)
